@@ -106,7 +106,7 @@ func Load(cfg LoadConfig, overlay map[string][]byte) (*Loaded, error) {
 		WhitelistPkgs:  map[string]bool{"path": true, "strings": true, "internal/stringslite": true, "unicode/utf8": true, "go/ast": true, "go/token": true},
 		MaxSteps:       4_000_000,
 		MaxForks:       4000,
-		MaxBlockVisits: 5000,
+		MaxBlockVisits: 50000,
 		SolverKind:     SolverZ3New,
 		TimeoutMs:      10000,
 	}
